@@ -54,6 +54,10 @@ EDGE_TEXTS = [
     # a division by a negated chain / product (rewrites inside the negation, then the division itself)
     "x / -(a * b * c)", "y / -(a + b + c)", "y / -(x * (a + b))", "(x + 1) / -(2y * z * w)", "4 / -((a * b) * c)", "x / -(2a + 3a)", "1 / -(x * x)", "-(a + b + c) / -(a * b)",
     "sgn(a + b + c) + 1", "-(a * b * c) * x", "(a + b + c)!" if False else "-(2x + 3x + y)",
+    # a power with a NEGATED base next to a term in the same variable (even exponents: (-x)^2 is x^2, not -x^2)
+    "(-x)^2 * x^3", "(-y)^4 + 3y^4", "(-x)^3 * x", "2x^2 + (-x)^2", "(-x)^2 * x^3 = 32", "(-2x)^2 + x^2", "(-x)^0.5 * x", "-x^2 + (-x)^2",
+    # constant folds whose product / sum is the neutral element, at the ROOT of the tree
+    "0.5x * 2", "4 * (0.25 * y)", "2 * 0.5x", "1x * 1", "-1 * (-1 * z)", "0.5 * (2 * (x + 1))", "x + 0 + 0", "(3 - 3) + y", "2x^2 * 0.5",
     # texts the documented grammar does NOT derive (an equation inside a group): a parser that accepts
     # them hands the rules trees they were never written for; on the pinned parser they are simply skipped
     "-(3 = 2)", "2(x = 3)", "7 - (1 + 1 = 3)", "-(x = 3)", "sgn(2 = 3)", "(4 = 5)^2", "-(2 + 2 = 5) + x",
